@@ -30,7 +30,7 @@ REQUIRED_CLASSES = ['returned-by-rule', 'returned-input-as-residual', 'returned-
                     'unit:sd', 'unit:rilling-stop-true', 'unit:rilling-stop-false', 'unit:rilling-zero-amplitude', 'energy:flag-cleared']
 EXPECTED_LABELS = ['outcome-matches-spec', 'imf-equals-spec-iterate', 'flag-matches-spec', 'terminates', 'unit-sd-stop',
                    'unit-rilling-stop', 'unit-fixed-stop', 'energy-flag']
-BUDGET_S = {'quick': 170, 'thorough': 1200}
+BUDGET_S = {'quick': 170, 'thorough': 900}
 OPTS = {'quick': {'sample_every': 9, 'path_wall_s': 25}, 'thorough': {'sample_every': 9, 'timeout_ms': 20000}}
 
 
